@@ -162,5 +162,9 @@ func (i Imports) Swap(j, k int) {
 }
 
 func (i Imports) Less(j, k int) bool {
+	if i[j] == nil || i[k] == nil {
+		// null entries (rejected by Validate) sort first
+		return i[j] == nil && i[k] != nil
+	}
 	return i[j].Subject < i[k].Subject
 }
